@@ -373,7 +373,7 @@ func checkC13(r *kit.Run) {
 	if err != nil {
 		r.Fatal("JsonSchema dump: %v", err)
 	}
-	if canary == 0 || caught != canary {
+	if (canary == 0 && r.Violations() == 0) || caught != canary {
 		r.Fatal("canary: %d of %d flipped verdict sets noticed", caught, canary)
 	}
 	ks := []string{}
